@@ -261,6 +261,14 @@ func (e *Env) Write(vid needle.VolumeId, key uint64, cookie uint32, b Blob) (unc
 // DeleteLikeHandler does what VolumeServer.DeleteHandler does around the Store:
 // read, compare the cookie, then Store.DeleteVolumeNeedle with the needle read.
 // outcome: "notfound" (read failed), "cookie" (mismatch), "ok", or "error: ...".
+// WriteBatched is Write with fsync requested on a store that is stopping: the
+// only combination for which Store.WriteVolumeNeedle takes the batched
+// (asyncRequest / worker goroutine) write path instead of syncWrite.
+func (e *Env) WriteBatched(vid needle.VolumeId, key uint64, cookie uint32, b Blob) (unchanged bool, err error) {
+	e.Store.SetStopping()
+	return e.Store.WriteVolumeNeedle(vid, MakeNeedle(key, cookie, b), true)
+}
+
 func (e *Env) DeleteLikeHandler(vid needle.VolumeId, key uint64, presented uint32) (outcome string, size int64) {
 	n := &needle.Needle{Id: types.NeedleId(key), Cookie: types.Cookie(presented)}
 	if _, err := e.Store.ReadVolumeNeedle(vid, n, nil); err != nil {
